@@ -301,6 +301,7 @@ func checkC04(w *World, r *Report) {
 	checkScannerContextRestored(w, r)
 	checkLoadersReturnFileBytes(w, r)
 	checkParseGetsTheSource(w, r, "R04.13")
+	checkWritersWriteEverything(w, r)
 }
 
 func onlyDebugRefs(v ssa.Value) bool {
@@ -1141,4 +1142,81 @@ func checkParseGetsTheSource(w *World, r *Report, rule string) {
 		})
 	}
 	r.floor("calls of Parser.Parse", n, 3)
+}
+
+// checkWritersWriteEverything — R04.14: an output buffer takes everything it is handed.  In every
+// Write([]byte) / WriteString(string) method of a package type, a return with a nil error reports
+// the length of the argument — len(p), or a count that can only be that (the result of append-ing
+// the whole argument) — never the result of a copy into whatever room there was: io.Writer's
+// contract is "n < len(p) ⇒ err != nil", callers (fmt.Fprintf, the node renderers) do not look
+// at n, and literal text beyond the room silently disappears from the output.
+func checkWritersWriteEverything(w *World, r *Report) {
+	n := 0
+	for _, fn := range w.pkgFuncs() {
+		if fn.Signature.Recv() == nil || fn.Synthetic != "" || (fn.Name() != "Write" && fn.Name() != "WriteString") {
+			continue
+		}
+		if fn.Signature.Params().Len() != 1 || fn.Signature.Results().Len() != 2 || len(fn.Params) != 2 {
+			continue
+		}
+		arg := fn.Params[1]
+		instrsOf(fn, func(in ssa.Instruction) {
+			ret, ok := in.(*ssa.Return)
+			if !ok {
+				return
+			}
+			res := retResults(ret)
+			if len(res) != 2 || !isNilConst(res[1]) {
+				return
+			}
+			n++
+			bad := ""
+			seen := map[ssa.Value]bool{}
+			var walk func(v ssa.Value, d int)
+			walk = func(v ssa.Value, d int) {
+				v = unspill(v)
+				if v == nil || seen[v] || d > 6 || bad != "" {
+					return
+				}
+				seen[v] = true
+				switch x := v.(type) {
+				case *ssa.Phi:
+					for _, e := range x.Edges {
+						walk(e, d+1)
+					}
+				case *ssa.Call:
+					if b, ok := x.Call.Value.(*ssa.Builtin); ok {
+						switch b.Name() {
+						case "len":
+							if unspill(x.Call.Args[0]) == ssa.Value(arg) {
+								return
+							}
+						case "copy":
+							bad = "the count a copy returned"
+							return
+						}
+					}
+					// forwarded to another writer: its count
+					return
+				case *ssa.Extract:
+					return
+				case *ssa.Const:
+					if x.Value != nil && x.Value.Kind() == constant.Int && x.Int64() == 0 {
+						return // nothing to write (empty argument paths)
+					}
+					bad = "the constant " + x.Value.ExactString()
+				default:
+					bad = v.String()
+				}
+			}
+			walk(res[0], 0)
+			construct := "a successful write reports len of its argument"
+			if bad == "" {
+				r.ok("R04.14", ssaName(fn), construct, w.posOf(ret.Pos()), "len(argument), zero for nothing, or the count of the writer it forwards to", true)
+			} else {
+				r.bad("R04.14", ssaName(fn), construct, w.posOf(ret.Pos()), "the method returns "+bad+" with a nil error: when less than the whole argument fits, the rest is dropped without anybody being told — literal text beyond that point never reaches the output")
+			}
+		})
+	}
+	r.floor("successful returns of Write / WriteString methods", n, 2)
 }
